@@ -268,14 +268,7 @@ def r157(repo, ctx):
     q = 'ShapeFactor._findRcrit'
     f = repo.func(SF, q)
     pn = U.params(f)
-    loops = [l for l in ast.walk(f) if isinstance(l, ast.While)]
-    if len(loops) != 1 or len(pn) < 3:
-        ctx.undecided('R15.7', SF, q, f, 'expected one while loop and the parameters (RcritSphere, Rmax)')
-        return
-    loop = loops[0]
-    # the midpoint binding  mid = (lo + hi) / 2  names the bracket ends
-    mids = []
-    for st in ast.walk(f):
+    def mid_binding(st):
         if isinstance(st, ast.Assign) and len(st.targets) == 1 and isinstance(st.targets[0], ast.Name):
             v = st.value
             half = None
@@ -286,13 +279,19 @@ def r157(repo, ctx):
                     if U.is_const(a, 0.5):
                         half = b
             if isinstance(half, ast.BinOp) and isinstance(half.op, ast.Add) and isinstance(half.left, ast.Name) and isinstance(half.right, ast.Name):
-                mids.append((st, st.targets[0].id, {half.left.id, half.right.id}))
-    ends = {frozenset(m[2]) for m in mids}
-    if len(ends) != 1 or len(mids) < 2:
-        ctx.undecided('R15.7', SF, q, f, 'midpoint bindings mid = (lo + hi) / 2 not recognised')
+                return st.targets[0].id, {half.left.id, half.right.id}
+        return None
+    # the loop that recomputes the midpoint  mid = (lo + hi) / 2  names the bracket ends
+    loops = [l for l in ast.walk(f) if isinstance(l, (ast.While, ast.For)) and any(mid_binding(st) for st in ast.walk(l))]
+    if len(loops) != 1 or len(pn) < 3:
+        ctx.undecided('R15.7', SF, q, f, 'expected one loop that recomputes a midpoint mid = (lo + hi) / 2 and the parameters (RcritSphere, Rmax)')
         return
-    lo_hi = set(next(iter(ends)))
-    mid = mids[0][1]
+    loop = loops[0]
+    mids = [mid_binding(st) for st in ast.walk(loop) if mid_binding(st)]
+    if len({(m[0], frozenset(m[1])) for m in mids}) != 1:
+        ctx.undecided('R15.7', SF, q, f, 'more than one midpoint binding in the loop')
+        return
+    mid, lo_hi = mids[0][0], set(mids[0][1])
     in_loop = {id(n) for n in ast.walk(loop)}
     init = {}
     for st in U.body_without_docstring(f):
@@ -300,9 +299,14 @@ def r157(repo, ctx):
             break
         if isinstance(st, ast.Assign) and len(st.targets) == 1 and isinstance(st.targets[0], ast.Name) and st.targets[0].id in lo_hi:
             init[st.targets[0].id] = st
-    vals = {nm: (st.value.id if isinstance(st.value, ast.Name) else None) for nm, st in init.items()}
-    ok = set(init) == lo_hi and set(vals.values()) == {pn[1], pn[2]}
-    bad_st = next((st for nm, st in init.items() if vals[nm] not in (pn[1], pn[2])), f)
+    vals = {}
+    for nm in lo_hi:
+        if nm in init:
+            vals[nm] = init[nm].value.id if isinstance(init[nm].value, ast.Name) else None
+        elif nm in pn:
+            vals[nm] = nm           # the parameter itself serves as the end of the bracket
+    ok = set(vals) == lo_hi and set(vals.values()) == {pn[1], pn[2]}
+    bad_st = next((st for nm, st in init.items() if vals.get(nm) not in (pn[1], pn[2])), f)
     ctx.check(ok, 'R15.7', SF, q, bad_st, f'the bisection starts on the whole interval [{pn[1]}, {pn[2]}]',
               f'the bisection does not start on [{pn[1]}, {pn[2]}] ({", ".join(nm + " = " + U.src(st.value)[:50] for nm, st in sorted(init.items()))}): a start interval narrowed by an assumption on the '
               'aspect-ratio function excludes the root for functions that are not monotone, and the search then falls back to the spherical radius', construct='_findRcrit: start interval')
@@ -324,9 +328,11 @@ def r157(repo, ctx):
     ctx.check(not bad, 'R15.7', SF, q, loop, 'on every path of an iteration exactly one end of the bracket is replaced by the midpoint and the midpoint is recomputed from the new ends',
               'an iteration of the bisection does not replace exactly one end of the bracket by the midpoint (or does not recompute the midpoint): the bracket stops shrinking around the root',
               construct='_findRcrit: bracket update')
-    tests = [n for n in ast.walk(loop.test) if isinstance(n, ast.Compare)]
-    ok_t = any(isinstance(c.ops[0], (ast.Gt, ast.GtE)) and 'tol' in U.src(c.comparators[0]) and isinstance(c.left, ast.Call) and (U.call_name(c.left) or '') in ('np.abs', 'abs', 'np.absolute') for c in tests)
-    ctx.check(ok_t, 'R15.7', SF, q, loop, 'the search continues while |objective(mid)| exceeds the tolerance', 'the loop test is not |objective at the midpoint| > tol', construct='_findRcrit: loop test')
+    hdr = [loop.test] if isinstance(loop, ast.While) else []
+    tests = [n for t_ in hdr + [i.test for i in ast.walk(loop) if isinstance(i, ast.If)] for n in ast.walk(t_) if isinstance(n, ast.Compare) and len(n.ops) == 1]
+    ok_t = any(isinstance(c.ops[0], (ast.Gt, ast.GtE, ast.Lt, ast.LtE)) and any('tol' in U.src(x) for x in (c.left, c.comparators[0]))
+               and any(isinstance(x, ast.Call) and (U.call_name(x) or '') in ('np.abs', 'abs', 'np.absolute') for x in (c.left, c.comparators[0])) for c in tests)
+    ctx.check(ok_t, 'R15.7', SF, q, loop, 'the search is controlled by a comparison of |objective(mid)| with the tolerance', 'no comparison of |objective at the midpoint| with the tolerance controls the search', construct='_findRcrit: loop test')
 
 
 def check(repo, ctx, index, purity):
